@@ -34,9 +34,9 @@ def universes(tier, seed):
     if tier == "quick":
         out.append((f"MULTI3[{seed % 4}/4]", [("idx", 3, i) for i in U.shard(U.catalogue("multi"), seed, 4)], ALL[:3]))
         out.append((f"NFVS3_multi[{seed % 4}/4]", [("idx", 3, i) for i in U.shard(U.catalogue("nfvs_multi"), seed, 4)], ALL[:3]))
-        out.append((f"F3c[{seed % 8}/8]", [("idx", 3, i) for i in U.shard(U.F3_indices(True), seed, 8)], ALL[:2]))
-        out.append((f"MAA3[{seed % 256}/256]", [("idx", 3, i) for i in U.shard(U.catalogue("maa"), seed, 256)], [ALL[0], ALL[3]]))
-        out.append((f"NFVS3[{seed % 1024}/1024]", [("idx", 3, i) for i in U.shard(U.catalogue("nfvs"), seed, 1024)], [ALL[0], ALL[3]]))
+        out.append((f"F3c[{seed % 16}/16]", [("idx", 3, i) for i in U.shard(U.F3_indices(True), seed, 16)], ALL[:2]))
+        out.append((f"MAA3[{seed % 512}/512]", [("idx", 3, i) for i in U.shard(U.catalogue("maa"), seed, 512)], [ALL[0], ALL[3]]))
+        out.append((f"NFVS3[{seed % 2048}/2048]", [("idx", 3, i) for i in U.shard(U.catalogue("nfvs"), seed, 2048)], [ALL[0], ALL[3]]))
         out.append((f"U3c[idx={seed % 8191} mod 8191]", [("idx", 3, i) for i in U.U3c_shard(seed, 8191)], [ALL[0]]))
     else:
         out.append(("MULTI3", [("idx", 3, i) for i in U.catalogue("multi")], ALL))
@@ -135,7 +135,8 @@ def check_inputs(net, spec, res, ops=None):
             {"minimum_simulation_budget": 0, "retained_set_optimization_threshold": 1})
     # the configuration star runs on the small universes and on the multi-attractor catalogues (where candidates survive to
     # the simulation / regeneration stages); elsewhere only the simulation budget is varied
-    if not (net.n <= 2 or spec[0] == "k" or len(net.attractors) >= 2 and net.n <= 3 and hash(repr(spec)) % 4 == 0):
+    if not (net.n <= 1 or spec[0] == "k" or (net.n == 2 and hash(repr(spec)) % 2 == 0)
+            or (len(net.attractors) >= 2 and net.n <= 3 and hash(repr(spec)) % 8 == 0)):
         cfgs = cfgs[:1]
     for cfg in cfgs:
         for ops in ((("seeds", 0),), (("cand", 0, True, True),), (("bfs", None, None, None), ("allseeds",))):
